@@ -361,8 +361,8 @@ def eval_shard(task):
         m = re.search(r"=\s*(\[.*?\])\s*:\s*list \(nat \* nat\)", out, re.S)
         if not m:
             raise RuntimeError("shard %s: no verdict list in the coqc output (rc=%d): %s" % (name, rc, (out + err)[-1200:]))
-        codes = {int(a): int(b) for a, b in re.findall(r"\((\d+),\s*(\d+)\)", m.group(1))}
-        m2 = re.search(r"=\s*\((\d+),\s*(\d+)\)\s*:\s*nat \* nat", out)
+        codes = {int(a): int(b) for a, b in re.findall(r"\(\s*(\d+)\s*,\s*(\d+)\s*\)", m.group(1))}
+        m2 = re.search(r"=\s*\(\s*(\d+)\s*,\s*(\d+)\s*\)\s*:\s*nat \* nat", out)
         if not m2 or int(m2.group(1)) != len(codes) or int(m2.group(2)) != len(items):
             raise RuntimeError("shard %s: printed verdict list is incomplete (%d parsed, coq says %s)" % (name, len(codes), m2.groups() if m2 else None))
         if rc != 0 and not codes:
